@@ -22,9 +22,9 @@ META = {
                         "real seeds {0,1,2}; 8-vertex structured graphs with real seeds 0..7 (generator not enumerable there); orbit explorers on all graphs n<=4 (lc_orbit_finder parameter grid, random draws <=1 deviation), "
                         "repeater graphs 4,6,8, paths 2..8",
                "thorough": "n=5 everywhere, <=2 deviations"},
-    "assumptions": ["per-call horizon 10 s", "'input first' is demanded when sort_emit is False; 'pairwise different' means different labelled graphs"],
+    "assumptions": ["per-call horizon 30 s of CPU time", "'input first' is demanded when sort_emit is False; 'pairwise different' means different labelled graphs"],
 }
-HORIZON = 10.0
+HORIZON = 30.0
 
 
 def adj(n, edges):
